@@ -263,6 +263,7 @@ func runOne(t *testing.T, job *Job, seed uint64, res *Result) {
 			simnet.SetWorld(r.Net)
 			simnet.SetCoarseSegmentation(r.Real)
 			simexec.SetHandler(nil)
+			fdStart := fdCaptureSize()
 			sc := scenarios[job.Scen]
 			if sc == nil {
 				panic("unknown scenario " + job.Scen)
@@ -283,6 +284,15 @@ func runOne(t *testing.T, job *Job, seed uint64, res *Result) {
 				sc(r)
 			}()
 			r.Net.finish()
+			// monitor M-tty (C01): servitor owns the terminal through the frames it hands to its
+			// output callback and through nothing else. Whatever was written to file descriptors 1
+			// and 2 directly during this run (print, println, log, fmt.Print*) went to the terminal
+			// unfiltered.
+			if raw := fdCaptureSince(fdStart); len(raw) > 0 {
+				s.Probe("raw_bytes_on_terminal_fds")
+				text := strings.NewReplacer("\r", "", "\t", " ").Replace(string(raw))
+				checkTerm(r, "bytes written directly to the terminal's file descriptors", text)
+			}
 			if !s.Drain() {
 				clean = false
 			}
@@ -358,7 +368,7 @@ func stackOf() []byte {
 func WorkerMain(t *testing.T) {
 	simtls.InitCA()
 	in := bufio.NewReaderSize(os.Stdin, 1<<20)
-	out := bufio.NewWriter(os.Stdout)
+	out := bufio.NewWriter(fdCaptureInstall())
 	fmt.Fprintln(out, "@@READY")
 	out.Flush()
 	for {
